@@ -110,6 +110,15 @@ fn pattern_qual(w: &World, len: usize) -> Vec<u8> {
 fn gen_records(w: &World, kind: Kind, scale: Scale, magic: Option<usize>, edge_desc: bool) -> Vec<Rec> {
     let mut v: Vec<Rec> = Vec::new();
     let max_recs = if scale == Scale::Many { 300 } else { 6 };
+    // 1 run in 6 uses read names as sequencers write them: a shared run prefix plus a counter of
+    // varying width, and descriptions made of short words separated by single blanks — neighbouring
+    // headers then share long prefixes and have blanks at many offsets
+    let realistic: Option<String> = if w.chance(1, 6) {
+        w.probe("realistic_read_names");
+        Some(format!("{}{}", string_from(w, &['S', 'R', 'r', 'e', 'a', 'd', '_', '0', '1'], 5, 10), *w.pick(&[".", "_", ":", "/"])))
+    } else {
+        None
+    };
     loop {
         let go = if scale == Scale::Many {
             (v.len() as u64) < max_recs && w.chance(60, 61)
@@ -119,7 +128,9 @@ fn gen_records(w: &World, kind: Kind, scale: Scale, magic: Option<usize>, edge_d
         if !go {
             break;
         }
-        let id = if scale == Scale::Huge && w.chance(1, 4) {
+        let id = if let Some(prefix) = &realistic {
+            format!("{}{}", prefix, *w.pick(&["1", "10", "2", "100", "12345", "11", "3/1", "3/2", ""]))
+        } else if scale == Scale::Huge && w.chance(1, 4) {
             string_from(w, id_chars(), 1, 3000)
         } else {
             string_from(w, id_chars(), 1, 8)
@@ -135,6 +146,17 @@ fn gen_records(w: &World, kind: Kind, scale: Scale, magic: Option<usize>, edge_d
                 std::iter::repeat(c).take(n).collect()
             } else if scale == Scale::Huge && w.chance(1, 2) {
                 string_from(w, desc_chars(), 1, 10_000)
+            } else if realistic.is_some() {
+                // short words separated by single blanks
+                let mut d = String::new();
+                let words = 1 + w.draw(6);
+                for k in 0..words {
+                    if k > 0 {
+                        d.push(' ');
+                    }
+                    d.push_str(&string_from(w, &['a', 'b', '1', '=', 'x', ':'], 1, 3));
+                }
+                d
             } else {
                 string_from(w, desc_chars(), 1, 12)
             };
@@ -1632,7 +1654,7 @@ pub fn property() -> Property {
             "header_split_across_reads", "cr_lf_in_different_reads", "utf8_char_split_across_reads", "first_byte_delivered_alone",
             "cut_at_record_boundary", "cut_inside_header", "cut_inside_plus_line", "cut_inside_quality", "cut_inside_sequence", "cut_inside_terminator",
             "quality_starts_with_at", "quality_starts_with_plus", "writer_buffer_smaller_than_field", "relayout_multiline_crlf",
-            "sniffer_used", "related_fields_or_records", "description_empty_or_ending_in_whitespace", "sniff_seek_stream_not_at_zero", "magic_size_run", "wrap_equals_magic_and_sequence_reaches_it", "large_regime", "many_records_regime", "huge_regime", "cut_sweep", "all_partitions_sweep", "garbage_invalid_utf8", "garbage_rejected_with_error",
+            "sniffer_used", "realistic_read_names", "related_fields_or_records", "description_empty_or_ending_in_whitespace", "sniff_seek_stream_not_at_zero", "magic_size_run", "wrap_equals_magic_and_sequence_reaches_it", "large_regime", "many_records_regime", "huge_regime", "cut_sweep", "all_partitions_sweep", "garbage_invalid_utf8", "garbage_rejected_with_error",
         ],
         quick_runs: 400_000,
         thorough_runs: 30_000_000,
